@@ -38,25 +38,6 @@ Proof. unfold any_char. intro H. apply negb_false_iff in H. exact H. Qed.
 (* ------------------------------------------------------------------ *)
 (* quoting: one field                                                  *)
 (* ------------------------------------------------------------------ *)
-(* what the tokenizer does with a field, as a function: strip the quotes, undouble *)
-Fixpoint undq (s : string) : string :=
-  match s with
-  | EmptyString => EmptyString
-  | String c r =>
-      if Ascii.eqb c cQUOTE then
-        match r with
-        | String c' r' => if Ascii.eqb c' cQUOTE then String c (undq r') else String c (undq r)
-        | EmptyString => EmptyString          (* the closing quote *)
-        end
-      else String c (undq r)
-  end.
-
-Definition unquote (s : string) : string :=
-  match s with
-  | String c r => if Ascii.eqb c cQUOTE then undq r else s
-  | EmptyString => s
-  end.
-
 Lemma undq_dq s : undq (String.append (dq s) (String cQUOTE EmptyString)) = s.
 Proof.
   induction s as [|c s IH]; [reflexivity|].
@@ -195,16 +176,6 @@ Proof.
     unfold end_field, pushs. cbn [a_rows a_row a_fld String.append].
     rewrite (IH ltac:(discriminate) Hr). rewrite <- app_assoc. reflexivity.
 Qed.
-
-(* a written line never starts with a line break, blank or tab: it starts with the row label (a digit) or,
-   for the header, with the delimiter *)
-Definition row_start_ok (r : list string) : bool :=
-  match join_line r with
-  | EmptyString => false
-  | String c _ => negb (Ascii.eqb c cLF || Ascii.eqb c cCR || Ascii.eqb c cSP || Ascii.eqb c cTAB)
-  end.
-
-Definition row_ok (r : list string) : Prop := row_start_ok r = true /\ Forall (fun f => cr_ok f = true) r.
 
 Lemma run_rows rs : Forall row_ok rs -> forall rows,
   run SR (mkAcc rows [] EmptyString) (print_rows rs) = Some (rows ++ rs).
@@ -438,8 +409,6 @@ Proof.
   apply data_row_ok; assumption.
 Qed.
 
-Definition label_column (n : nat) : list string := map (fun i => dec_z (Z.of_nat i)) (seq 0 n).
-
 (* what the reader sees before any type inference: the row labels under "Unnamed: 0", then every column
    under its name, cell texts exactly as rendered *)
 Lemma read_raw_written t : wf_frame t -> text_ok t = true ->
@@ -552,9 +521,6 @@ Proof.
   unfold decide. cbn [map] in *. rewrite E. reflexivity.
 Qed.
 
-Definition expect_same (c : tcell) : rcell :=
-  match c with TInt z => RInt z | TBool b => RBool b | TFloat l => RFlit l | TStr s => RStr s | TNA => RNaN end.
-
 Lemma same_expect c : same_value c (expect_same c) = true.
 Proof.
   destruct c as [z|b|l|s|]; cbn; try reflexivity.
@@ -648,12 +614,6 @@ Proof.
 Qed.
 
 (* ---- integers beside a missing entry: the column becomes float64 ---- *)
-Definition int_as_float (c : tcell) : rcell :=
-  match c with
-  | TInt z => if Z.eqb z i64_min then RNaN else RFint (round_f64 z)
-  | _ => RNaN
-  end.
-
 Lemma int_or_na_inv cells : forallb int_cell cells = true ->
   forall c, In c cells -> c = TNA \/ exists z, c = TInt z.
 Proof.
@@ -868,28 +828,12 @@ Qed.
 (* ------------------------------------------------------------------ *)
 (* what does not survive: witnesses                                    *)
 (* ------------------------------------------------------------------ *)
-Definition three_ids : string * list tcell := ("id"%string, [TInt 1; TInt 2; TInt 3]).
-Definition w_int_missing : tframe := [three_ids; ("v"%string, [TInt (2 ^ 53 + 1); TNA; TInt 7])].
-Definition w_int_min : tframe := [three_ids; ("v"%string, [TInt (- 2 ^ 63); TNA; TInt 7])].
-Definition w_uint_missing : tframe := [three_ids; ("u"%string, [TInt (2 ^ 63); TNA; TInt 1])].
-Definition w_str_007 : tframe := [three_ids; ("s"%string, [TStr "007"; TStr "1"; TStr "12"])].
-Definition w_str_na : tframe := [three_ids; ("s"%string, [TStr "NA"; TStr "a"; TStr "b"])].
-Definition w_str_empty : tframe := [three_ids; ("s"%string, [TStr ""; TStr "a"; TStr "b"])].
-Definition w_str_1e3 : tframe := [three_ids; ("s"%string, [TStr "1e3"; TStr "2"; TStr "1.5"])].
-Definition w_str_true : tframe := [three_ids; ("s"%string, [TStr "True"; TStr "False"; TStr "true"])].
-Definition w_str_masked : tframe := [three_ids; ("s"%string, [TStr "007"; TNA; TStr "1"])].
-Definition w_str_cr : tframe := [three_ids; ("s"%string, [TStr (String.append "a" (String.append (chr 13) "b")); TStr "k"; TStr "m"])].
-Definition w_str_nul : tframe := [three_ids; ("s"%string, [TStr (String.append "a" (String.append (chr 0) "b")); TStr "k"; TStr "m"])].
-Definition w_bool_missing : tframe := [three_ids; ("b"%string, [TBool true; TNA; TBool true])].
-
 Lemma wf_two a b : fst a <> fst b -> List.length (snd b) = List.length (snd a) -> wf_frame [a; b].
 Proof.
   intros N L. split; [discriminate|]. split.
   - intros c [<-|[<-|[]]]; cbn; [reflexivity | exact L].
   - constructor; [intros [E|[]]; apply N; symmetry; exact E|]. constructor; [intros []|constructor].
 Qed.
-
-Definition csv_full : Prop := forall t, wf_frame t -> frame_reads_back t = true.
 
 Lemma w_wf name cells : name <> "id"%string -> List.length cells = 3%nat -> wf_frame [three_ids; (name, cells)].
 Proof. intros N L. apply wf_two; cbn; [intro E; apply N; symmetry; exact E | exact L]. Qed.
@@ -957,3 +901,191 @@ Lemma csv_full_refuted : ~ csv_full.
 Proof.
   intro H. destruct int_missing_refuted as (W & F & _). rewrite (H _ W) in F. discriminate F.
 Qed.
+
+(* ------------------------------------------------------------------ *)
+(* from the stored graph to the files (typed graph, Table.v's export)  *)
+(* ------------------------------------------------------------------ *)
+Lemma typed_table_names pool t : map fst (typed_table pool t) = map fst t.
+Proof. unfold typed_table. rewrite map_map. reflexivity. Qed.
+
+Lemma wf_typed pool t N : t <> [] -> (forall c, In c t -> List.length (snd c) = N) -> NoDup (map fst t) ->
+  wf_frame (typed_table pool t).
+Proof.
+  intros Hne Hlen Hnd.
+  assert (R : nrows (typed_table pool t) = N).
+  { destruct t as [|c t]; [contradiction|]. cbn. rewrite map_length. apply Hlen. left. reflexivity. }
+  split; [destruct t; [contradiction | discriminate]|]. split.
+  - intros c Hc. rewrite R. unfold typed_table in Hc. apply in_map_iff in Hc. destruct Hc as (c0 & <- & Hc0).
+    cbn. rewrite map_length. apply Hlen. exact Hc0.
+  - rewrite typed_table_names. exact Hnd.
+Qed.
+
+Lemma flat_spec_names props : map fst (flat_map spec_columns props) = flat_map names_of props.
+Proof.
+  induction props as [|p r IH]; [reflexivity|].
+  change (flat_map spec_columns (p :: r)) with (spec_columns p ++ flat_map spec_columns r).
+  change (flat_map names_of (p :: r)) with (names_of p ++ flat_map names_of r).
+  rewrite map_app, spec_columns_names. f_equal. exact IH.
+Qed.
+
+Lemma table_distinct idcols props : names_distinct idcols props = true ->
+  fst (export idcols props) = idcols ++ flat_map spec_columns props /\
+  NoDup (map fst (fst (export idcols props))).
+Proof.
+  intro H. unfold names_distinct in H. apply nodupb_NoDup in H.
+  rewrite (export_distinct idcols props H). cbn [fst]. split; [reflexivity|].
+  rewrite map_app, flat_spec_names. exact H.
+Qed.
+
+Lemma node_tframe_wf g : wf_graph (erase g) -> graph_names_distinct (erase g) = true ->
+  wf_frame (node_tframe g) /\ wf_frame (edge_tframe g).
+Proof.
+  intros W D. unfold graph_names_distinct in D. apply andb_true_iff in D. destruct D as [Dn De].
+  destruct (frames_rows_warnings _ W) as (Rn & Re & _). cbv zeta in Rn, Re.
+  destruct (table_distinct _ _ Dn) as [En Nn]. destruct (table_distinct _ _ De) as [Ee Ne].
+  split.
+  - unfold node_tframe. apply (wf_typed _ _ (List.length (g_ids (erase g)))).
+    + unfold node_frame. rewrite En. discriminate.
+    + exact Rn.
+    + exact Nn.
+  - unfold edge_tframe. apply (wf_typed _ _ (List.length (g_edges (erase g)))).
+    + unfold edge_frame. rewrite Ee. discriminate.
+    + exact Re.
+    + exact Ne.
+Qed.
+
+(* for ALL typed graphs with distinct column names: when both frames are safe, both files read back *)
+Lemma csv_graph_partial g : wf_graph (erase g) -> graph_names_distinct (erase g) = true ->
+  frame_safe (node_tframe g) = true -> frame_safe (edge_tframe g) = true ->
+  frame_reads_back (node_tframe g) = true /\ frame_reads_back (edge_tframe g) = true.
+Proof.
+  intros W D Sn Se. destruct (node_tframe_wf g W D) as [Wn We].
+  split; apply csv_partial; assumption.
+Qed.
+
+(* ---- the id columns ---- *)
+Lemma map_seq_off {A} (f : nat -> A) off n : map f (seq off n) = map (fun i => f (off + i)%nat) (seq 0 n).
+Proof.
+  revert f. induction off as [|off IH]; intro f; [reflexivity|].
+  rewrite map_seq_shift. rewrite IH. reflexivity.
+Qed.
+
+Lemma nth_range_head {A} (a b : list A) d :
+  map (fun i => nth i (a ++ b) d) (seq 0 (List.length a)) = a.
+Proof.
+  transitivity (map (fun i => nth i a d) (seq 0 (List.length a))).
+  - apply map_ext_in. intros i Hi. apply in_seq in Hi. apply app_nth1. lia.
+  - rewrite (map_nth_seq (fun x => x) a d). apply map_id.
+Qed.
+
+Lemma decode_range (vs : list Z) rest off n :
+  map (decode (map TInt vs ++ rest)) (map Val (zseq off n))
+  = map (fun i => nth (off + i) (map TInt vs ++ rest) TNA) (seq 0 n).
+Proof.
+  unfold zseq. rewrite !map_map. rewrite map_seq_off. apply map_ext. intro i.
+  cbn [decode]. rewrite Nat2Z.id. reflexivity.
+Qed.
+
+Lemma decode_ids ids rest :
+  map (decode (map TInt ids ++ rest)) (map Val (zseq 0 (List.length ids))) = map TInt ids.
+Proof.
+  rewrite decode_range. cbn [Nat.add].
+  pose proof (nth_range_head (map TInt ids) rest TNA) as H. rewrite map_length in H. exact H.
+Qed.
+
+(* the text of an id column and what default read_csv infers: the same integers, as int64, or as uint64
+   when one lies beyond 2^63-1 *)
+Lemma decide_ids ids : ids_in_range ids = true ->
+  exists d, decide (map render (map TInt ids)) = Some (d, map RInt ids).
+Proof.
+  intro H.
+  assert (M : map expect_same (map TInt ids) = map RInt ids) by (rewrite map_map; reflexivity).
+  assert (I : forallb int_cell (map TInt ids) = true) by (apply forallb_map_true; reflexivity).
+  assert (N : existsb is_TNA (map TInt ids) = false) by (apply existsb_map_false; reflexivity).
+  destruct ids as [|z0 ids0] eqn:Eids; [exists DObject; reflexivity|]. rewrite <- Eids in *.
+  assert (Hne : map TInt ids <> []) by (rewrite Eids; discriminate).
+  destruct (forallb (cell_in i64_min i64_max) (map TInt ids)) eqn:E.
+  - exists DInt64. rewrite (kind_int _ Hne I N E), M. reflexivity.
+  - exists DUInt64. rewrite (kind_uint _ I N); [rewrite M; reflexivity | | exact E].
+    unfold ids_in_range in H. apply orb_true_iff in H. destruct H as [H|H].
+    + exfalso. assert (E' : forallb (cell_in i64_min i64_max) (map TInt ids) = true).
+      { apply forallb_map_true. intros z Hz. rewrite forallb_forall in H. exact (H z Hz). }
+      congruence.
+    + apply forallb_map_true. intros z Hz. rewrite forallb_forall in H. exact (H z Hz).
+Qed.
+
+Lemma node_id_column g : graph_names_distinct (erase g) = true ->
+  exists rest, node_tframe g = ("id"%string, map TInt (tg_ids g)) :: rest.
+Proof.
+  intro D. unfold graph_names_distinct in D. apply andb_true_iff in D. destruct D as [Dn _].
+  destruct (table_distinct _ _ Dn) as [En _].
+  unfold node_tframe, node_frame. rewrite En. unfold node_idcols, erase. cbn [g_ids app typed_table map fst snd].
+  eexists. f_equal. f_equal. unfold node_pool, pool_of. apply decode_ids.
+Qed.
+
+Lemma csv_node_ids_read_back g : wf_graph (erase g) -> graph_names_distinct (erase g) = true ->
+  text_ok (node_tframe g) = true -> ids_in_range (tg_ids g) = true ->
+  exists d, read_column (fst (csv_texts g)) "id" = Some (Some (d, map RInt (tg_ids g))).
+Proof.
+  intros W D T R. destruct (node_tframe_wf g W D) as [Wn _].
+  destruct (node_id_column g D) as (rest & E). destruct (decide_ids _ R) as (d & Hd).
+  exists d. unfold csv_texts, read_column. cbn [fst]. rewrite (read_back_columns _ Wn T).
+  rewrite E. cbn [map rlookup fst snd]. change (String.eqb "Unnamed: 0" "id") with false. cbv iota.
+  rewrite String.eqb_refl. rewrite Hd. reflexivity.
+Qed.
+
+Lemma combine_fst_snd {A B} (a : list A) (b : list B) : List.length a = List.length b ->
+  map fst (combine a b) = a /\ map snd (combine a b) = b.
+Proof.
+  revert b. induction a as [|x a IH]; intros [|y b] H; try discriminate H; [split; reflexivity|].
+  cbn [combine map fst snd]. injection H as H. destruct (IH b H) as [E1 E2]. rewrite E1, E2. split; reflexivity.
+Qed.
+
+Lemma zseq_length off n : List.length (zseq off n) = n.
+Proof. unfold zseq. rewrite map_length, seq_length. reflexivity. Qed.
+
+Lemma edge_id_columns g : graph_names_distinct (erase g) = true ->
+  exists rest, edge_tframe g =
+    ("source"%string, map TInt (map fst (tg_edges g))) :: ("target"%string, map TInt (map snd (tg_edges g))) :: rest.
+Proof.
+  intro D. unfold graph_names_distinct in D. apply andb_true_iff in D. destruct D as [_ De].
+  destruct (table_distinct _ _ De) as [Ee _].
+  unfold edge_tframe, edge_frame. rewrite Ee. unfold edge_idcols, erase. cbn [g_edges app typed_table map fst snd].
+  set (e := List.length (tg_edges g)).
+  destruct (combine_fst_snd (zseq 0 e) (zseq e e)) as [F S]; [rewrite !zseq_length; reflexivity|].
+  rewrite F, S.
+  set (A := map TInt (map fst (tg_edges g))). set (B := map TInt (map snd (tg_edges g))).
+  assert (LA : List.length A = e) by (unfold A, e; rewrite !map_length; reflexivity).
+  assert (LB : List.length B = e) by (unfold B, e; rewrite !map_length; reflexivity).
+  assert (P : edge_pool g = A ++ (B ++ flat_map tp_vals (tg_eprops g))).
+  { unfold edge_pool, pool_of, A, B. rewrite map_app, <- app_assoc. reflexivity. }
+  eexists. f_equal; [|f_equal]; f_equal.
+  - unfold edge_pool, pool_of. rewrite decode_range. cbn [Nat.add].
+    fold (pool_of (map fst (tg_edges g) ++ map snd (tg_edges g)) (tg_eprops g)). fold (edge_pool g). rewrite P.
+    rewrite <- LA. apply nth_range_head.
+  - unfold edge_pool, pool_of. rewrite decode_range.
+    fold (pool_of (map fst (tg_edges g) ++ map snd (tg_edges g)) (tg_eprops g)). fold (edge_pool g). rewrite P.
+    transitivity (map (fun i => nth i (B ++ flat_map tp_vals (tg_eprops g)) TNA) (seq 0 e)).
+    + apply map_ext. intro i. rewrite <- LA. apply app_nth2_plus.
+    + rewrite <- LB. apply nth_range_head.
+Qed.
+
+Lemma csv_edge_ids_read_back g : wf_graph (erase g) -> graph_names_distinct (erase g) = true ->
+  text_ok (edge_tframe g) = true ->
+  ids_in_range (map fst (tg_edges g)) = true -> ids_in_range (map snd (tg_edges g)) = true ->
+  exists d1 d2,
+    read_column (snd (csv_texts g)) "source" = Some (Some (d1, map RInt (map fst (tg_edges g)))) /\
+    read_column (snd (csv_texts g)) "target" = Some (Some (d2, map RInt (map snd (tg_edges g)))).
+Proof.
+  intros W D T R1 R2. destruct (node_tframe_wf g W D) as [_ We].
+  destruct (edge_id_columns g D) as (rest & E).
+  destruct (decide_ids _ R1) as (d1 & H1). destruct (decide_ids _ R2) as (d2 & H2).
+  exists d1, d2. unfold csv_texts, read_column. cbn [snd]. rewrite (read_back_columns _ We T).
+  rewrite E. cbn [map rlookup fst snd].
+  change (String.eqb "Unnamed: 0" "source") with false. change (String.eqb "Unnamed: 0" "target") with false.
+  change (String.eqb "source" "target") with false. cbv iota.
+  rewrite !String.eqb_refl. rewrite H1, H2. split; reflexivity.
+Qed.
+
+Lemma decimal_reads_back z : lex_int (dec_z z) = Some z /\ classify (dec_z z) = LInt z.
+Proof. split; [apply lex_int_dec | apply classify_dec]. Qed.
